@@ -22,12 +22,13 @@ pub open spec fn op_id(op: PendingOp) -> String {
     match op { PendingOp::Add { doc_id, .. } => doc_id, PendingOp::Delete { doc_id } => doc_id }
 }
 
-// ghost log of tombstoned addresses
-pub struct Tomb { pub ghost log: Seq<(String, DocId)> }
-
+pub open spec fn tomb_has(m: Map<String, Vec<DocId>>, seg: String, ord: DocId) -> bool {
+    m.contains_key(seg) && m[seg]@.contains(ord)
+}
+// R3 helper: X.entry(K).or_default().push(V)  -- assumed contract: insert-or-append
 #[verifier::external_body]
-pub fn map_vec_push(m: &mut HashMap<String, Vec<DocId>>, Ghost(t): Ghost<&mut Tomb>, k: String, v: DocId)
-  ensures final(t).log == old(t).log.push((k, v))
+pub fn map_vec_push(m: &mut HashMap<String, Vec<DocId>>, k: String, v: DocId)
+  ensures forall|s: String, o: DocId| #![auto] tomb_has(final(m)@, s, o) <==> (tomb_has(old(m)@, s, o) || (s == k && o == v))
 { m.entry(k).or_default().push(v); }
 
 pub open spec fn last_add(ops: Seq<PendingOp>, id: String) -> Option<Document>
@@ -44,15 +45,21 @@ pub open spec fn touched(ops: Seq<PendingOp>, id: String) -> bool {
   exists|i: int| 0 <= i < ops.len() && op_id(#[trigger] ops[i]) == id
 }
 
+pub open spec fn was_live_touched(ops: Seq<PendingOp>, live0: Map<String, DocAddress>, s: String, o: DocId) -> bool {
+    exists|id: String| #![auto] touched(ops, id) && live0.contains_key(id) && live0[id].segment_id == s && live0[id].doc_id == o
+}
+
 pub fn fold(pending_ops: &Vec<PendingOp>, live_docs: &mut HashMap<String, DocAddress>,
-            pending_new: &mut BTreeMap<String, Document>, tombstones: &mut HashMap<String, Vec<DocId>>, Ghost(t): Ghost<&mut Tomb>)
-  requires vstd::std_specs::hash::obeys_key_model::<String>(), vstd::std_specs::btree::key_obeys_cmp_spec::<String>(), old(pending_new)@ == Map::<String, Document>::empty(), old(t).log.len() == 0,
+            pending_new: &mut BTreeMap<String, Document>, tombstones: &mut HashMap<String, Vec<DocId>>)
+  requires vstd::std_specs::hash::obeys_key_model::<String>(), vstd::std_specs::btree::key_obeys_cmp_spec::<String>(), old(pending_new)@ == Map::<String, Document>::empty(), old(tombstones)@ == Map::<String, Vec<DocId>>::empty(),
   ensures
     forall|id: String| #![auto] final(pending_new)@.contains_key(id) <==> last_add(pending_ops@, id) is Some,
     forall|id: String| #![auto] final(pending_new)@.contains_key(id) ==> final(pending_new)@[id] == last_add(pending_ops@, id)->Some_0,
     forall|id: String| #![auto] !touched(pending_ops@, id) ==> (final(live_docs)@.contains_key(id) <==> old(live_docs)@.contains_key(id)),
     forall|id: String| #![auto] !touched(pending_ops@, id) && old(live_docs)@.contains_key(id) ==> final(live_docs)@[id] == old(live_docs)@[id],
     forall|id: String| #![auto] touched(pending_ops@, id) ==> !final(live_docs)@.contains_key(id),
+    // (c) exactly the old copies are tombstoned
+    forall|s: String, o: DocId| #![auto] tomb_has(final(tombstones)@, s, o) <==> was_live_touched(pending_ops@, old(live_docs)@, s, o),
 {
     broadcast use vstd::std_specs::hash::group_hash_axioms;
     broadcast use vstd::std_specs::btree::group_btree_axioms;
@@ -66,6 +73,7 @@ pub fn fold(pending_ops: &Vec<PendingOp>, live_docs: &mut HashMap<String, DocAdd
         forall|id: String| #![auto] !touched(pending_ops@.take(it.index@ as int), id) ==> (live_docs@.contains_key(id) <==> live0.contains_key(id)),
         forall|id: String| #![auto] !touched(pending_ops@.take(it.index@ as int), id) && live0.contains_key(id) ==> live_docs@[id] == live0[id],
         forall|id: String| #![auto] touched(pending_ops@.take(it.index@ as int), id) ==> !live_docs@.contains_key(id),
+        forall|s: String, o: DocId| #![auto] tomb_has(tombstones@, s, o) <==> was_live_touched(pending_ops@.take(it.index@ as int), live0, s, o),
     {
       let ghost k = it.index@ as int;
       proof {
@@ -78,10 +86,12 @@ pub fn fold(pending_ops: &Vec<PendingOp>, live_docs: &mut HashMap<String, DocAdd
         }
       }
       let ghost pn0 = pending_new@;
+      let ghost tb0 = tombstones@;
+      let ghost ld0 = live_docs@;
       match op {
         PendingOp::Add { doc_id, doc } => {
           if let Some(addr) = live_docs.remove(doc_id) {
-            map_vec_push(tombstones, Ghost(t), addr.segment_id, addr.doc_id);
+            map_vec_push(tombstones, addr.segment_id, addr.doc_id);
           }
           pending_new.insert(doc_id.clone(), doc.clone());
           proof {
@@ -93,7 +103,7 @@ pub fn fold(pending_ops: &Vec<PendingOp>, live_docs: &mut HashMap<String, DocAdd
         PendingOp::Delete { doc_id } => {
           pending_new.remove(doc_id);
           if let Some(addr) = live_docs.remove(doc_id) {
-            map_vec_push(tombstones, Ghost(t), addr.segment_id, addr.doc_id);
+            map_vec_push(tombstones, addr.segment_id, addr.doc_id);
           }
           proof {
             assert(pending_new@ == pn0.remove(*doc_id));
@@ -102,8 +112,27 @@ pub fn fold(pending_ops: &Vec<PendingOp>, live_docs: &mut HashMap<String, DocAdd
           }
         }
       }
+      proof {
+        let id0 = op_id(pending_ops@[k]);
+        assert(pending_ops@[k] == *op);
+        assert forall|s: String, o: DocId| #![auto] tomb_has(tombstones@, s, o) <==> was_live_touched(pending_ops@.take(k + 1), live0, s, o) by {
+            let pushed = ld0.contains_key(id0) && ld0[id0].segment_id == s && ld0[id0].doc_id == o;
+            assert(tomb_has(tombstones@, s, o) <==> (tomb_has(tb0, s, o) || pushed));
+            if ld0.contains_key(id0) { assert(!touched(pending_ops@.take(k), id0)); assert(live0.contains_key(id0) && ld0[id0] == live0[id0]); }
+            if tomb_has(tb0, s, o) {
+                let id = choose|id: String| #![auto] touched(pending_ops@.take(k), id) && live0.contains_key(id) && live0[id].segment_id == s && live0[id].doc_id == o;
+                assert(touched(pending_ops@.take(k + 1), id));
+            }
+            if pushed { assert(touched(pending_ops@.take(k + 1), id0)); }
+            if was_live_touched(pending_ops@.take(k + 1), live0, s, o) {
+                let id = choose|id: String| #![auto] touched(pending_ops@.take(k + 1), id) && live0.contains_key(id) && live0[id].segment_id == s && live0[id].doc_id == o;
+                if touched(pending_ops@.take(k), id) { assert(was_live_touched(pending_ops@.take(k), live0, s, o)); }
+                else { assert(id == id0); assert(ld0.contains_key(id0)); }
+            }
+        }
+      }
     }
-    proof { assert(pending_ops@.take(pending_ops@.len() as int) =~= pending_ops@); }
+    proof { assert(pending_ops@.take(pending_ops@.len() as int) =~= pending_ops@); assert(live0 == old(live_docs)@); }
 }
 }
 fn main(){}
